@@ -8,7 +8,7 @@ set -u
 # cache grows by gigabytes per hundred worktrees
 export GOCACHE=${GOCACHE_REGRESS:-/tmp/gocache-regress-$$}
 trap 'rm -rf $GOCACHE' EXIT
-IDS="${*:-$(ls ${VERIF_HOME:-/verif}/refactors | sort)}"
+IDS="${*:-$(ls -d ${VERIF_HOME:-/verif}/refactors/*/ | xargs -n1 basename | sort)}"
 bad=0
 for id in $IDS; do
   out=$(${VERIF_HOME:-/verif}/tools/refac_eval.sh ${VERIF_HOME:-/verif}/refactors/$id/patch.diff 2>&1)
